@@ -11,10 +11,16 @@ extern crate rustc_driver;
 extern crate rustc_hir;
 extern crate rustc_interface;
 extern crate rustc_lint;
+extern crate rustc_data_structures;
+extern crate rustc_index;
 extern crate rustc_middle;
+extern crate rustc_session;
 extern crate rustc_span;
 
+use std::cell::RefCell;
+use std::collections::HashMap;
 use std::fmt::Write as _;
+use std::sync::OnceLock;
 
 use rustc_driver::Compilation;
 use rustc_hir::def::DefKind;
@@ -124,7 +130,10 @@ impl<'tcx> Cx<'tcx> {
                 } else {
                     let v = match c.const_ {
                         Const::Val(..) | Const::Ty(..) => format!("{}", c.const_),
-                        Const::Unevaluated(u, _) => format!("uneval:{}", self.path(u.def)),
+                        Const::Unevaluated(u, _) => match u.promoted {
+                            Some(p) => format!("promoted[{}]", p.as_usize()),
+                            None => format!("uneval:{}", self.path(u.def)),
+                        },
                     };
                     let _ = write!(s, ",\"v\":{}", esc(&v));
                 }
@@ -249,7 +258,7 @@ impl<'tcx> Cx<'tcx> {
         None
     }
 
-    fn dump_body(&self, def: LocalDefId, body: &Body<'tcx>, out: &mut String) {
+    fn dump_body(&self, def: LocalDefId, body: &Body<'tcx>, promoted: &[Body<'tcx>], out: &mut String) {
         let tcx = self.tcx;
         let did = def.to_def_id();
         let kind = tcx.def_kind(def);
@@ -463,6 +472,32 @@ impl<'tcx> Cx<'tcx> {
             s.push_str(&tj);
             let _ = write!(s, ",\"ln\":{}}}", self.line(tsp));
         }
+        s.push_str("],\"promoted\":[");
+        for (pi, pb) in promoted.iter().enumerate() {
+            if pi > 0 {
+                s.push(',');
+            }
+            s.push('[');
+            let mut firstp = true;
+            for data in pb.basic_blocks.iter() {
+                for st in &data.statements {
+                    if let StatementKind::Assign(b) = &st.kind {
+                        let (lhs, rv) = &**b;
+                        if !firstp {
+                            s.push(',');
+                        }
+                        firstp = false;
+                        let _ = write!(
+                            s,
+                            "{{\"s\":\"assign\",\"lhs\":{},\"rv\":{}}}",
+                            self.place(pb, lhs),
+                            self.rvalue(pb, did, rv)
+                        );
+                    }
+                }
+            }
+            s.push(']');
+        }
         s.push_str("]}");
         out.push_str(&s);
         out.push('\n');
@@ -579,8 +614,51 @@ fn unwind_json(u: &rustc_middle::mir::UnwindAction) -> String {
     }
 }
 
+type PromotedFn = for<'tcx> fn(
+    TyCtxt<'tcx>,
+    LocalDefId,
+) -> (
+    &'tcx rustc_data_structures::steal::Steal<Body<'tcx>>,
+    &'tcx rustc_data_structures::steal::Steal<rustc_index::IndexVec<rustc_middle::mir::Promoted, Body<'tcx>>>,
+);
+static ORIG_MIR_PROMOTED: OnceLock<PromotedFn> = OnceLock::new();
+thread_local! {
+    /// private copies of every body's `mir_promoted`, taken the moment the query computes it
+    /// (borrowck of any body - e.g. to reveal an `async fn`'s opaque type - steals the original).
+    static STORE: RefCell<HashMap<LocalDefId, (Body<'static>, Vec<Body<'static>>)>> = RefCell::new(HashMap::new());
+}
+
+fn snapshot_mir_promoted<'tcx>(
+    tcx: TyCtxt<'tcx>,
+    def: LocalDefId,
+) -> (
+    &'tcx rustc_data_structures::steal::Steal<Body<'tcx>>,
+    &'tcx rustc_data_structures::steal::Steal<rustc_index::IndexVec<rustc_middle::mir::Promoted, Body<'tcx>>>,
+) {
+    let r = (ORIG_MIR_PROMOTED.get().expect("provider saved"))(tcx, def);
+    let body: Body<'tcx> = r.0.borrow().clone();
+    let proms: Vec<Body<'tcx>> = r.1.borrow().iter().cloned().collect();
+    // SAFETY: the copies are only read inside `after_analysis`, while `tcx` is alive.
+    let body: Body<'static> = unsafe { std::mem::transmute(body) };
+    let proms: Vec<Body<'static>> = unsafe { std::mem::transmute(proms) };
+    STORE.with(|s| {
+        s.borrow_mut().insert(def, (body, proms));
+    });
+    r
+}
+
+fn override_queries(_sess: &rustc_session::Session, providers: &mut rustc_middle::util::Providers) {
+    let _ = ORIG_MIR_PROMOTED.set(providers.queries.mir_promoted);
+    providers.queries.mir_promoted = snapshot_mir_promoted;
+}
+
 struct Cb;
 impl rustc_driver::Callbacks for Cb {
+    fn config(&mut self, config: &mut rustc_interface::interface::Config) {
+        if std::env::var("RL_FACTS_OUT").is_ok() {
+            config.override_queries = Some(override_queries);
+        }
+    }
     fn after_analysis<'tcx>(&mut self, _c: &Compiler, tcx: TyCtxt<'tcx>) -> Compilation {
         let outdir = match std::env::var("RL_FACTS_OUT") {
             Ok(d) => d,
@@ -602,22 +680,30 @@ impl rustc_driver::Callbacks for Cb {
                 esc(&ctypes.join(",")),
                 is_test
             );
-            // Phase 1: take a private copy of every body's `mir_promoted` before any query that
-            // could run borrowck (opaque-type reveal, const eval) steals it.
-            let mut bodies: Vec<(LocalDefId, Body<'tcx>)> = vec![];
+            // Phase 1: force `mir_promoted` of every body; the overridden provider snapshots each
+            // one as it is computed, so later steals (borrowck) cannot hide a body from us.
+            let mut bodies: Vec<(LocalDefId, Body<'tcx>, Vec<Body<'tcx>>)> = vec![];
             for def in tcx.hir_body_owners() {
-                let promoted = tcx.mir_promoted(def);
-                if promoted.0.is_stolen() {
-                    let _ = writeln!(out, "{{\"t\":\"stolen\",\"fn\":{}}}", esc(&cx.path(def.to_def_id())));
-                    continue;
+                let _ = tcx.mir_promoted(def);
+            }
+            for def in tcx.hir_body_owners() {
+                let got = STORE.with(|s| s.borrow_mut().remove(&def));
+                match got {
+                    Some((b, ps)) => {
+                        // SAFETY: shrink 'static back to 'tcx (see snapshot_mir_promoted)
+                        let b: Body<'tcx> = unsafe { std::mem::transmute(b) };
+                        let ps: Vec<Body<'tcx>> = unsafe { std::mem::transmute(ps) };
+                        bodies.push((def, b, ps));
+                    }
+                    None => {
+                        let _ = writeln!(out, "{{\"t\":\"stolen\",\"fn\":{}}}", esc(&cx.path(def.to_def_id())));
+                    }
                 }
-                let b = promoted.0.borrow().clone();
-                bodies.push((def, b));
             }
             // Phase 2: facts.
             let mut n = 0usize;
-            for (def, body) in &bodies {
-                cx.dump_body(*def, body, &mut out);
+            for (def, body, ps) in &bodies {
+                cx.dump_body(*def, body, ps, &mut out);
                 n += 1;
             }
             cx.dump_items(&mut out);
